@@ -45,6 +45,21 @@ Theorem C07_vo_common_type_rewrite_invisible_on_same_type : forall T engaged hel
 Proof. exact vo_common_same_type. Qed.
 Print Assumptions C07_vo_common_type_rewrite_invisible_on_same_type.
 
+(* ... to every integer fallback type (the round trip through the common integer type is lossless), and to a floating
+   fallback type as long as the held value fits its significand (|held| < 2^23 for float, 2^52 for double): the
+   seed shows ONLY on a floating fallback with a held integer beyond that *)
+Theorem C07_vo_common_type_rewrite_invisible_on_integer_fallback : forall T U held fb,
+  vo_is_fp T = false -> vo_is_fp U = false -> ilo T <= held <= ihi T ->
+  vo_value_or_common T U true held fb = Ok held.
+Proof. exact vo_common_integer_invisible. Qed.
+Print Assumptions C07_vo_common_type_rewrite_invisible_on_integer_fallback.
+
+Theorem C07_vo_common_type_rewrite_invisible_on_short_values : forall T U held fb,
+  vo_is_fp T = false -> vo_is_fp U = true -> ilo T <= held <= ihi T -> Z.abs (2 * held) < 2 ^ mant U ->
+  vo_value_or_common T U true held fb = Ok held.
+Proof. exact vo_common_small_invisible. Qed.
+Print Assumptions C07_vo_common_type_rewrite_invisible_on_short_values.
+
 Theorem C07_vo_round_trip_through_fallback_type_refuted :
   vo_value_or_in_U SInt SShort true 70000 0 = Ok 4464 /\ vo_value_or SInt SShort true 70000 0 = Ok 70000
   /\ vo_value_or_in_U SDouble SInt true 5 0 = Ok 4 /\ vo_value_or SDouble SInt true 5 0 = Ok 5.
